@@ -767,6 +767,94 @@ def gen_responder_scenario(rng, idx):
     return sc
 
 
+def gen_history_scenario(rng, idx):
+    """The cache is built by the real receive path alone (response datagrams through `datagram_received`), with histories in which the
+    SAME record is received more than once: re-announced with another TTL, flushed and re-announced, or repeated byte-identically in a
+    steady stream.  `truth` is what RFC 6762 section 10 says the cache holds when the lookup starts -- a record's life starts at its
+    last sighting, with that sighting's TTL -- written down by the generator, independent of what the cache claims."""
+    host = rng.choice(HOSTS)
+    sc = {"timeout": rng.choice([300, 500, 1000]), "forced": 0, "draws": [rng.choice([20, 120]) for _ in range(12)], "simseed": rng.randint(0, 10**6),
+          "maxdelay": 0, "warmup": 0, "pre": [], "events": [], "prehist": [], "preevents": [], "via": None}
+    fam = rng.choice(["ttl-change", "ttl-change", "flush-reannounce", "stream", "stream"])
+    sc["family"] = fam
+    srv = {"k": "srv", "name": NAME, "server": host, "port": 80, "prio": 0, "weight": 0, "unique": True}
+    txt = {"k": "txt", "name": NAME, "text": "03613d31", "unique": True}
+    a1 = {"k": "a", "name": host, "addr": V4[0], "unique": True}
+    a2 = {"k": "a", "name": host, "addr": V4[1], "unique": True}
+
+    def recs(specs, ttl):
+        return [dict(x, ttl=ttl) for x in specs]
+
+    if fam == "ttl-change":
+        # announced with TTL t1, re-announced (equal records) with TTL t2: the second announcement decides
+        t1, t2 = rng.choice([(120, 2), (120, 2), (4500, 3), (2, 120), (3, 4500), (120, 10)])
+        gap = rng.choice([1000, 1500]) if t1 <= 3 else rng.choice([1500, 4000, 30000])    # the second arrives while the first is still cached
+        b2 = rng.choice([500, 1000 * t2 - 1, 1000 * t2, 1000 * t2 + 1, 5000, 1500])
+        sc["preevents"] = [{"before": b2 + gap, "kind": "resp", "recs": recs([srv, txt, a1], t1)}, {"before": b2, "kind": "resp", "recs": recs([srv, txt, a1], t2)}]
+        sc["truth"] = [dict(x, before=b2) for x in recs([srv, txt, a1], t2)]
+    elif fam == "flush-reannounce":
+        # A1 cached for more than a second; A2 announced alone with the flush bit (A1 is set to expire in one second); A1 announced again
+        # less than a second after A2 (so A2 is not flushed in turn): both addresses live on with their own TTLs
+        b3 = rng.choice([2000, 3000, 5000])
+        d23 = rng.choice([300, 500, 900])
+        b1 = b3 + d23 + rng.choice([1500, 5000])
+        sc["preevents"] = [{"before": b1, "kind": "resp", "recs": recs([srv, txt, a1], 120)},
+                           {"before": b3 + d23, "kind": "resp", "recs": recs([a2], 120)},
+                           {"before": b3, "kind": "resp", "recs": recs([a1], 120)}]
+        sc["truth"] = [dict(x, before=b1) for x in recs([srv, txt], 120)] + [dict(a2, ttl=120, before=b3 + d23), dict(a1, ttl=120, before=b3)]
+    else:
+        # a responder repeats one and the same response (byte-identical) every `d` ms, d < 1 s, for longer than the records' TTL: the
+        # duplicate-packet guard may drop a copy that follows a PROCESSED copy by less than a second, so at least every second copy
+        # is processed and the records never run out
+        ttl = rng.choice([2, 3])
+        d = rng.choice([300, 500, 800, 900])
+        tail = rng.choice([1, d // 2, d - 1])
+        n = (ttl * 1000 + 3000) // d + 2
+        sc["preevents"] = [{"before": tail + j * d, "kind": "resp", "recs": recs([srv, txt, a1], ttl)} for j in range(n)]
+        # worst case: the last copy was dropped as a duplicate, the one before it was processed
+        sc["truth"] = [dict(x, before=tail + d) for x in recs([srv, txt, a1], ttl)]
+    return sc
+
+
+def truth_cache(sc, t0):
+    """the generator's statement of what the cache holds at the start of the lookup, in the format of `Watch.snap`"""
+    out = []
+    for spec in sc["truth"]:
+        r = mk_record(spec, created=t0 - spec["before"])
+        out.append({"name": r.name, "type": r.type, "cls": r.class_, "ttl": int(r.ttl), "created": int(r.created), "kind": type(r).__name__,
+                    "addr": getattr(r, "address", b"").hex() if type(r).__name__ == "DNSAddress" else None,
+                    "srv": (r.server, r.port, r.priority, r.weight) if type(r).__name__ == "DNSService" else None,
+                    "text": r.text.hex() if type(r).__name__ == "DNSText" else None})
+    return out
+
+
+def oracle_by_datagrams(sc, obs):
+    """the cache clauses of the property measured against the datagrams the instance received instead of against the cache's own
+    bookkeeping: 'unexpired' = unexpired by the last sighting of the record"""
+    out = []
+    name = sc.get("name", NAME)
+    blocks, fin = obs["blocks"], obs["final"]
+    s0 = blocks[0]
+    tc = truth_cache(sc, obs["t0"])
+    at_once = s0["ret"] is True and not s0["sent"] and obs["t_ret"] == obs["t0"]
+    if cache_suffices(tc, name, s0["now"]) and not at_once:
+        out.append(("C18:cachefirst", "by the datagrams received (%s) the cache holds an unexpired SRV and an unexpired address of its host, yet the lookup %s"
+                    % (sc["family"], "transmitted a query" if any(b["sent"] for b in blocks) else "did not answer at once")))
+    if at_once:
+        srv = (fin["server"], fin["port"], fin["priority"], fin["weight"])
+        if not any(r["kind"] == "DNSService" and r["name"].lower() == name.lower() and not expired(r, s0["now"]) and r["srv"] == srv for r in tc):
+            out.append(("C18:stale-srv", "answered from the cache with host/port %r, but by the datagrams received (%s) no SRV of the instance carrying them is unexpired: "
+                        "a record's life starts at its last sighting, with that sighting's TTL" % (srv, sc["family"])))
+        for a in fin["v4"] + fin["v6"]:
+            if not any(r["kind"] == "DNSAddress" and r["name"].lower() == (fin["server_key"] or "") and not expired(r, s0["now"]) and r["addr"] == a for r in tc):
+                out.append(("C18:stale-address", "answered from the cache with address %s, which by the datagrams received (%s) had expired" % (a, sc["family"])))
+        for r in tc:
+            if valid_addr(r) and r["name"].lower() == (fin["server_key"] or "") and not expired(r, s0["now"]) and r["addr"] not in fin["v4"] + fin["v6"]:
+                out.append(("C18:cache-load-incomplete", "answered from the cache without address %s of %s, which by the datagrams received (%s) is unexpired"
+                            % (r["addr"], fin["server_key"], sc["family"])))
+    return out
+
+
 def nontriv_key(sc, obs):
     b0 = obs["blocks"][0]
     kinds = tuple(sorted({(r["type"], "E" if expired(r, b0["now"]) else ("S" if stale(r, b0["now"]) else "F")) for r in b0["cache"]}))
@@ -805,7 +893,7 @@ def check_cases(cases, res, ctx, label):
         res.count("queries", sum(1 for b in obs["blocks"] if b["sent"]))
         if i < 2:
             res.sample({"scenario": {k: sc[k] for k in ("timeout", "forced")}, "blocks": [impl_line(b) for b in obs["blocks"]][:6]})
-        for sig, what in oracle(sc, obs):
+        for sig, what in oracle(sc, obs) + (oracle_by_datagrams(sc, obs) if sc.get("truth") else []):
             res.count("oracle:" + sig)
             if res.dist["oracle:" + sig] <= 5:    # a few cases per signature: a frequent (known) one must not crowd out a rare one
                 res.violate(sig, what, sc)
@@ -827,7 +915,7 @@ def run(ctx):
         n *= 4
     corpus = [body.get("case", body) for _, body in C.load_corpus("C18")]
     check_cases(corpus, res, ctx, "corpus")
-    cases = [gen_responder_scenario(rng, i) if i % 5 == 4 else gen_scenario(rng, i) for i in range(n)]
+    cases = [gen_responder_scenario(rng, i) if i % 5 == 4 else (gen_history_scenario(rng, i) if i % 20 == 7 else gen_scenario(rng, i)) for i in range(n)]
     check_cases(cases, res, ctx, "gen")
     res.rule = ("one lookup per scenario on a simulated host: cache pre-filled with 0-2 SRV, 0-2 TXT, 0-3 A, 0-2 AAAA per host "
                 "(fresh / stale / expired-unpurged / on the boundary / expiring during the lookup; TTL 1 s-4500 s; names in several spellings), "
@@ -848,7 +936,7 @@ def replay(body):
     else:
         return {"violates": None, "note": "no scenario in this replay file (stage %s: %s)" % (body.get("stage"), body.get("broken"))}
     obs = run_scenario(sc)
-    v = oracle(sc, obs)
+    v = oracle(sc, obs) + (oracle_by_datagrams(sc, obs) if sc.get("truth") else [])
     out = {"violates": bool(v), "violations": [{"sig": s, "what": w} for s, w in v], "result": obs["result"],
            "returned_after_ms": obs["t_ret"] - obs["t0"], "blocks": [b["k"] + " t=%d " % (b["now"] - obs["t0"]) + impl_line(b) for b in obs["blocks"]]}
     try:
